@@ -5,7 +5,13 @@
 // (NUL-terminated std::string, slice of a longer buffer with a valid / an invalid tail, exact-size heap
 // block), one measurement is made and a pull reader collects. Oracle: valid <=> exactly one stream
 // with exactly that name and unit; invalid => no stream at all (inert instrument).
-// A second part compares the regex validator (the variant this build uses) with the hand-written one.
+// A second part holds the code of a build WITHOUT working std::regex (compiled from the unchanged sources
+// under other class names in c19_noregex.cc) to the same reference: the hand-written validator on every
+// sweep input (a wrong verdict on an input the statement decides is reported as C19:noregex:..., the
+// disagreements with the regex variant are counted), and view selection (predicate.h's #else branch through
+// the real ViewRegistry::FindViews) for exact-name / "*" / pattern selectors.
+// Under ABI v2 (registry entry c19_names_abi2, --kinds=gauges) the same generator runs through
+// CreateInt64Gauge / CreateDoubleGauge.
 #include <opentelemetry/sdk/metrics/instrument_metadata_validator.h>
 
 #include <opentelemetry/sdk/metrics/view/view_registry.h>
